@@ -511,7 +511,7 @@ fn worker(ctx: &WorkerCtx) -> Result<(), Fail> {
         let mut st = ctx.stats.borrow_mut();
         directed(&mut st)?;
     }
-    run_proptest(ctx, 6, ctx.share(ctx.tier.pick(600_000, 30_000_000)), strategy(), |c| serde_json::to_value(c).unwrap(), run_case)
+    run_proptest(ctx, 6, ctx.share(ctx.tier.pick(1_500_000, 30_000_000)), strategy(), |c| serde_json::to_value(c).unwrap(), run_case)
 }
 
 fn replay(v: &Value) -> Result<(), String> {
